@@ -139,7 +139,9 @@ func forType(t reflect.Type, seen map[reflect.Type]bool, ignore bool, schemas ma
 			if cloned.Type != "" {
 				cloned.Types = []string{"null", cloned.Type}
 				cloned.Type = ""
-			} else if !slices.Contains(cloned.Types, "null") {
+			} else if len(cloned.Types) > 0 && !slices.Contains(cloned.Types, "null") {
+				// A schema without "type" already admits null; giving it the
+				// type list ["null"] would make it reject everything else.
 				cloned.Types = append([]string{"null"}, cloned.Types...)
 			}
 		}
